@@ -34,23 +34,15 @@ theorem pcrel_sound (op imm : BitVec 32) (rd : Register) (w : BitVec 32)
 
 example : ∃ w, cls.pcrel 1#32 4294967295#32 R17 = .ok w := ⟨_, rfl⟩
 
-/-
-Full statement for class `test_and_branch` (what the property demands):
-  cls.test_and_branch op bit imm14 rt = .ok w →
-    -8192 ≤ imm14 < 8192 ∧ w[18:5] = imm14[13:0] ∧ …        (a 14-bit signed field)
-This is FALSE for the code as it stands: `fits_i14` accepts -16384 ≤ imm14 < 16384, so distances of
-8192..16383 instructions are accepted and truncated into a negative offset (see the `example` below and
-the finding `oracle:tbz:branch-target:*` of the check). Proved here is the part that does hold.
--/
-/-- Class `test_and_branch` (`tbz`/`tbnz`), partial: accepted ⇒ bit number and register fit and are placed
-(b5 at bit 31, b40 at 23:19), the low 14 bits of the distance are at 18:5, opcode bits fixed; the
-distance is only known to lie in [-16384, 16384) — one bit more than the field can hold. -/
-theorem test_and_branch_sound_partial (op bit imm14 : BitVec 32) (rt : Register) (w : BitVec 32)
+/-- Class `test_and_branch` (`tbz`/`tbnz`): accepted ⇒ bit number and register fit and are placed (b5 at bit 31,
+b40 at 23:19), the distance fits the signed 14-bit field and sits at 18:5, opcode bits fixed.
+(Before /repo commit 7810b35b9 `fits_i14` accepted one bit too many and only a `_partial` form held.) -/
+theorem test_and_branch_sound (op bit imm14 : BitVec 32) (rt : Register) (w : BitVec 32)
     (h : cls.test_and_branch op bit imm14 rt = .ok w) :
     op.ult 2#32 = true ∧ w.extractLsb' 24 1 = BitVec.setWidth 1 op ∧
     bit.ult 64#32 = true ∧ w.extractLsb' 31 1 = bit.extractLsb' 5 1 ∧ w.extractLsb' 19 5 = bit.extractLsb' 0 5 ∧
-    BitVec.sle 4294950912#32 imm14 = true ∧ BitVec.slt imm14 16384#32 = true ∧
-    w.extractLsb' 5 14 = BitVec.setWidth 14 imm14 ∧
+    BitVec.sle 4294959104#32 imm14 = true ∧ BitVec.slt imm14 8192#32 = true ∧
+    w.extractLsb' 5 14 = BitVec.setWidth 14 imm14 ∧ BitVec.signExtend 32 (w.extractLsb' 5 14) = imm14 ∧
     rt.v.ule 30#8 = true ∧ w.extractLsb' 0 5 = BitVec.setWidth 5 rt.v ∧
     w &&& 2113929216#32 = 905969664#32 := by
   unfold cls.test_and_branch at h
@@ -59,20 +51,22 @@ theorem test_and_branch_sound_partial (op bit imm14 : BitVec 32) (rt : Register)
 
 example : ∃ w, cls.test_and_branch 1#32 37#32 4294967295#32 R17 = .ok w := ⟨_, rfl⟩
 
-/-- the truncation itself: distance +8192 instructions is accepted and lands in the field as -8192 -/
-example : ∃ w, cls.test_and_branch 0#32 0#32 8192#32 R0 = .ok w ∧
-    BitVec.signExtend 32 (w.extractLsb' 5 14) = 4294959104#32 := ⟨_, rfl, by decide⟩
+/-- a distance of +8192 instructions (one past the field) is refused, -8192 is the last one accepted -/
+example : (∀ w, cls.test_and_branch 0#32 0#32 8192#32 R0 ≠ .ok w) ∧
+    (∃ w, cls.test_and_branch 0#32 0#32 4294959104#32 R0 = .ok w) :=
+  ⟨fun w h => by simp [cls.test_and_branch, rassert, fits_bit, fits_i14, bind, Except.bind] at h, ⟨_, rfl⟩⟩
 
 /-- "An operand that cannot be encoded is refused rather than silently truncated", signed fields: whenever
 `fits_iK` accepts a distance/offset, sign-extending the K-bit field gives the operand back
-(K = 7 pair offsets, 9 unscaled offsets, 19 cbz/b.cond, 21 adr, 26 b/bl). -/
+(K = 7 pair offsets, 9 unscaled offsets, 14 tbz/tbnz, 19 cbz/b.cond, 21 adr, 26 b/bl). -/
 theorem signed_fields_exact (x : BitVec 32) :
     (fits_i7 x = true → BitVec.signExtend 32 (BitVec.setWidth 7 x) = x) ∧
     (fits_i9 x = true → BitVec.signExtend 32 (BitVec.setWidth 9 x) = x) ∧
+    (fits_i14 x = true → BitVec.signExtend 32 (BitVec.setWidth 14 x) = x) ∧
     (fits_i19 x = true → BitVec.signExtend 32 (BitVec.setWidth 19 x) = x) ∧
     (fits_i21 x = true → BitVec.signExtend 32 (BitVec.setWidth 21 x) = x) ∧
     (fits_i26 x = true → BitVec.signExtend 32 (BitVec.setWidth 26 x) = x) := by
-  simp only [fits_i7, fits_i9, fits_i19, fits_i21, fits_i26]
+  simp only [fits_i7, fits_i9, fits_i14, fits_i19, fits_i21, fits_i26]
   bv_decide
 
 example : fits_i19 4294705152#32 = true := by decide
